@@ -35,7 +35,7 @@ ASSUMPTIONS = ["reference model: reads are no-ops, selections are snapshots, a[.
                "canonical form drops only the memo `_size` (a cache of sum(lengths); lengths never change and every state observation reads .size)",
                "known finding 'lazy-view-write-through' is classified by an explicit buffer-sharing model; only deviations equal to that model are attributed to it"]
 REQUIRED_FEATURES = ["pending_selection", "write_after_read", "alias_derivation",
-                     "three_variables", "selection_of_selection", "write_through_alias"]
+                     "three_variables", "selection_of_selection", "write_through_alias", "write_through_read_result"]
 BOUNDS = {"quick": "2 base arrays, 3 variables, every history of depth <= 4 over 9 selectors x 6 writes x 21 reads (all variables / sources), "
                    "plus depth 5 for histories on the first base whose first two steps are derivations",
           "thorough": "3 base arrays, depth <= 5 complete, depth 6 after two derivations"}
@@ -56,7 +56,26 @@ WRITES = ["row0", "col0", "fill", "cell", "rows1", "from"]
 READS = {"meta": False, "repr": True, "tolist": True, "ravel": True, "x[0]": True, "x[1:]": False, "x[:,::-1]": False,
          "x[0,0]": True, "x+1": True, "sum-1": True, "sum0": True, "concat": True, "x[...]": True, "x+y": True,
          "x[:,::2]": False, "x[mask]": True, "rslice": True, "col_counts": False, "x*fcol": True, "argmax": True, "x[ri,ci]": True}
+# writes THROUGH the ndarray a read returned (r = x[0]; r[...] = -4).  Whether such a result is a view or a copy is the library's
+# choice, so these steps have no model; they are judged by the read-commutation oracle alone and not expanded further.
+VIA = ["x[0]", "x[-1]", "x[-1,0:2]", "x[0,::2]", "ravel", "x[:,0]", "sum-1"]
 VARS = ["a", "b", "c"]
+
+
+def _global_config():
+    """process-wide numpy configuration that later operations (printing, arithmetic warnings) depend on"""
+    po = np.get_printoptions()
+    return (tuple(sorted((k, repr(v)) for k, v in po.items())), tuple(sorted(np.geterr().items())))
+
+
+_G0 = _global_config()
+_G0_RAW = (np.get_printoptions(), np.geterr())
+
+
+def _restore_global_config():
+    po = dict(_G0_RAW[0])
+    np.set_printoptions(**{k: v for k, v in po.items() if k != "override_repr" or v is not None})
+    np.seterr(**_G0_RAW[1])
 
 
 def shards(tier):
@@ -180,6 +199,16 @@ class Lazy:
             for i, val in zip([i for r in rows for i in r], src):
                 b[i] = val
 
+    def via(self, x, v):
+        """r = <read>; r[...] = -4 as the implementation does it today: x[0], x[-1] and ravel() touch x and return views of its buffer"""
+        if v in ("x[0]", "x[-1]", "ravel", "sum-1"):
+            self.touch(x)
+        d = self.v[x]
+        b = self.bufs[d["buf"]]
+        cells = {"x[0]": d["rows"][0], "x[-1]": d["rows"][-1], "ravel": [i for r in d["rows"] for i in r]}.get(v, [])
+        for i in cells:
+            b[i] = -4
+
     def read(self, x, r, other=None):
         if READS[r]:
             self.touch(x)
@@ -235,6 +264,10 @@ def enabled(snap):
                         ops.append(["R", x, r, y])
                 continue
             ops.append(["R", x, r])
+        for v in VIA:
+            if n < 1 or (v in ("x[-1,0:2]",) and not rows[-1]) or (v == "x[0,::2]" and not rows[0]) or (v == "x[:,0]" and not all(rows)):
+                continue
+            ops.append(["V", x, v])
     return ops
 
 
@@ -252,6 +285,29 @@ def do_write(objs, x, w, other=None):
         t[1:] = -9
     elif w == "from":
         t[...] = objs[other]
+
+
+def do_via(x, v):
+    """write through the array a read returned"""
+    if v == "x[0]":
+        r = x[0]
+    elif v == "x[-1]":
+        r = x[-1]
+    elif v == "x[-1,0:2]":
+        r = x[-1, 0:2]
+    elif v == "x[0,::2]":
+        r = x[0, ::2]
+    elif v == "ravel":
+        r = x.ravel()
+    elif v == "x[:,0]":
+        r = x[:, 0]
+    elif v == "sum-1":
+        r = x.sum(axis=-1)
+    else:
+        raise ValueError(v)
+    r = np.asarray(r)
+    if r.flags.writeable:
+        r[...] = -4
 
 
 def do_read(x, r, y=None):
@@ -321,6 +377,8 @@ def apply_impl(objs, op):
         return attempt(f)
     if op[0] == "W":
         return attempt(lambda: do_write(objs, op[1], op[2], op[3] if len(op) > 3 else None))
+    if op[0] == "V":
+        return attempt(lambda: do_via(objs[op[1]], op[2]))
     return observe(lambda: do_read(objs[op[1]], op[2], objs[op[3]] if len(op) > 3 else None), dt=True)
 
 
@@ -331,6 +389,8 @@ def apply_models(snap, lazy, op):
     elif op[0] == "W":
         snap.write(op[1], op[2], op[3] if len(op) > 3 else None)
         lazy.write(op[1], op[2], op[3] if len(op) > 3 else None)
+    elif op[0] == "V":
+        lazy.via(op[1], op[2])          # no specification model (terminal step, judged differentially); the lazy model only attributes
     else:
         lazy.read(op[1], op[2], op[3] if len(op) > 3 else None)
 
@@ -420,6 +480,12 @@ def _transition(acc, base, hist, key, origin, op, seen, ctx, count=True):
         acc.trans()
         acc.outcome((repr(res) if op[0] == "R" else None, repr(obs)))
         _features(acc, op, hist, lazy, k2 == key)
+    g = _global_config()
+    if g != _G0:
+        _restore_global_config()
+        if count:
+            acc.fail("operation-changed-process-wide-numpy-configuration", _G0, g, note=f"after {op}")
+        return "bad", k2, None
     status, org2 = _judge(acc, base, new_hist, op, res, objs, snap, lazy, obs, key, origin, k2, ctx, count)
     if status != "ok":
         return status, k2, None
@@ -441,6 +507,22 @@ def _judge(acc, base, hist, op, res, objs, snap, lazy, obs, key, origin, k2, ctx
     if op[0] != "R" and is_refused(res):
         fail("valid-operation-refused", op, res)
         return "bad", None
+    if op[0] == "V":
+        # write through a read's result: only the read-commutation oracle applies (twin = same step without the inserted reads)
+        okey, ohist = origin
+        if okey != key:
+            eo, es, el = replay(base, ohist)
+            apply_impl(eo, op)
+            apply_models(es, el, op)
+            eobs = observe_all(eo)
+            if repr(eobs) != repr(obs):
+                if obs == lz and eobs == expected_obs(el.contents()):
+                    fail("selection-content-depends-on-read-order", _show(eobs), _show(obs), classifier="c10.lazy-view-write-through",
+                         note="a write through the view returned by a read of the source reached an untouched selection")
+                    return "known", None
+                fail("outcome-depends-on-inserted-reads", repr(eobs), repr(obs), note="write through the array returned by a read")
+                return "bad", None
+        return "terminal", None
     if obs != want:
         if obs == lz and lz != want:
             fail("selection-content-depends-on-read-order", _show(want), _show(obs), classifier="c10.lazy-view-write-through",
@@ -498,6 +580,8 @@ def _features(acc, op, hist, lazy, self_loop):
         acc.feature("hidden:read_is_self_loop" if self_loop else "hidden:read_materialises")
     if op[0] == "W" and any(h[0] == "R" for h in hist):
         acc.feature("write_after_read")
+    if op[0] == "V":
+        acc.feature("write_through_read_result")
     if op[0] == "D" and op[3] in ALIAS:
         acc.feature("alias_derivation")
     if op[0] == "D" and op[1] == "c":
@@ -526,6 +610,11 @@ def check(case, acc):
         apply_models(snap, lazy, op)
         k2 = state_key(objs, snap)
         obs = observe_all(objs)
+        g = _global_config()
+        if g != _G0:
+            _restore_global_config()
+            acc.fail("operation-changed-process-wide-numpy-configuration", _G0, g, note=f"after {op}")
+            return
         st, org2 = _judge(acc, base, hist[:i + 1], op, res, objs, snap, lazy, obs, key, origin, k2, ctx, True)
         if st != "ok":
             return
